@@ -173,9 +173,15 @@ def pool_harness(kind, lo):
         k2 = world.build(0)
         t2 = world.task(k2, 'store')
         mark = world.mark()
-        got2 = visible(kind, t2.value)
-        ctx.check_concrete(eq(got2, exp_vis) and not world.runs_since(mark), 'loaded=returned',
-                           dict(info, stage='fresh chain', got=repr(got2)[:300]))
+        try:
+            got2 = visible(kind, t2.value)
+            err = None
+        except Exception as e:       # a stored value that cannot be loaded back is a round-trip failure, not a crash
+            got2, err = None, f'{type(e).__name__}: {e}'[:160]
+        ctx.check_concrete(err is None and eq(got2, exp_vis) and not world.runs_since(mark), 'loaded=returned',
+                           dict(info, stage='fresh chain', got=repr(got2)[:300], error=err))
+        if err is not None:
+            return
         after = result_snapshot(world)
         ctx.check_concrete(before == after, 'load-writes-nothing',
                            dict(info, changed=sorted(k for k in set(before) | set(after) if before.get(k) != after.get(k))))
@@ -189,12 +195,16 @@ def pool_harness(kind, lo):
         family.CONST['Store'] = w
         exp2 = copy.deepcopy(w) if kind not in ('gen', 'lazy') else list(copy.deepcopy(w))
         t2.force()
-        visible(kind, t2.value)
-        world.drop_chains()
-        k3 = world.build(0)
-        got3 = visible(kind, world.task(k3, 'store').value)
-        ctx.check_concrete(eq(got3, exp2), 'overwrite-leaves-only-new',
-                           dict(info, new_value=repr(exp2)[:300], got=repr(got3)[:300]))
+        try:
+            visible(kind, t2.value)
+            world.drop_chains()
+            k3 = world.build(0)
+            got3 = visible(kind, world.task(k3, 'store').value)
+            err = None
+        except Exception as e:
+            got3, err = None, f'{type(e).__name__}: {e}'[:160]
+        ctx.check_concrete(err is None and eq(got3, exp2), 'overwrite-leaves-only-new',
+                           dict(info, new_value=repr(exp2)[:300], got=repr(got3)[:300], error=err))
     return harness
 
 
